@@ -173,6 +173,16 @@ def run_cases(rng, tier, ifaces):
             mn, q = G.render_header(rng, d.cmd)
             text = G.render_unit(rng, mn, q, lits) + b'\n'
             out.append(Case(f'RUN echo std {hx(text)}', run_oracle, {'log': [], 'errs': ['-115'], 'any_one_error': have > 10, 'kind': 'RUN-arity'}))
+    # a handler with exactly MAX_ARGS parameters given all of them correctly plus surplus ones:
+    # the surplus must not be dropped silently
+    many = [d for d in echo.decls if len(d.args) == 10]
+    for d in many:
+        for extra in (1, 2, 5):
+            for _ in range(3):
+                lits = [G.literal(rng, ty, newline=False)[0] for ty in d.args] + [G.literal(rng, rng.choice(['u8', 'str', 'bool']), newline=False)[0] for _ in range(extra)]
+                mn, q = G.render_header(rng, d.cmd)
+                text = G.render_unit(rng, mn, q, lits) + b'\n'
+                out.append(Case(f'RUN echo std {hx(text)}', run_oracle, {'log': [], 'errs': [], 'any_one_error': True, 'kind': 'RUN-maxargs-valid'}))
     # more than MAX_ARGS literals: no call, exactly one error (whatever its number)
     for k in (11, 12, 15):
         for h in ('MANY', 'NINE', 'X'):
